@@ -63,6 +63,15 @@ NewEv == /\ IsEvent("new")
          /\ E.rid = E.id /\ E.rw = E.w /\ E.rh = E.h
          /\ UNCHANGED o
 
+\* a huge fresh page, summarised: length, header, no non-zero data byte, padding all 0xFF
+NewSumEv == /\ IsEvent("newsum")
+            /\ E.panic = FALSE
+            /\ E.len = TotalBytes(E.w, E.h)
+            /\ E.header = <<E.id, 16, 0, 0>>
+            /\ E.data_nonzero = 0 /\ E.pad_ok = TRUE
+            /\ E.rw = E.w /\ E.rh = E.h
+            /\ UNCHANGED o
+
 Set1Ev == /\ IsEvent("set1")
           /\ E.panic = FALSE
           /\ E.changed = << <<ByteIndex(E.h, E.x, E.y), Pow2(E.y % 8)>> >>
@@ -76,6 +85,6 @@ FromBytesEv ==
        ELSE E.res = "wronglength" /\ E.expected = TotalBytes(E.w, E.h) /\ E.actual = E.len
     /\ UNCHANGED o
 
-Next == PageEv \/ OpEv \/ SparseEv \/ NewEv \/ Set1Ev \/ FromBytesEv
+Next == PageEv \/ OpEv \/ SparseEv \/ NewSumEv \/ NewEv \/ Set1Ev \/ FromBytesEv
 Spec == Init /\ [][Next]_vars
 =============================================================================
